@@ -24,6 +24,14 @@ var (
 	verifDir = "/verif"
 )
 
+func init() {
+	// debugging aid: run against another checkout of goghcrow/yae (registered
+	// commands never set this; they check /repo itself)
+	if d := os.Getenv("SYMGO_REPO"); d != "" {
+		repoDir = d
+	}
+}
+
 func goEnv() []string {
 	return append(os.Environ(), "GOFLAGS=-mod=mod", "GOPROXY=off", "GOSUMDB=off", "GOTOOLCHAIN=local", "CGO_ENABLED=1")
 }
